@@ -63,7 +63,20 @@ MANIFEST = {
             "and one-folder-per-file hold whether the loader completes or raises, and after setup_for_episode both counters are zero "
             "(C15_initial_state; the missing reset was defect F-C15e, fixed). Rig: families H / health (corrupt -> delete -> restore at "
             "file and folder level on every surface, with the number of corrupt-and-deleted items brought back MEASURED on the real "
-            "objects) and cfg (real Computer.from_config with generated folder lists, then setup_for_episode).",
+            "objects) and cfg (real Computer.from_config with generated folder lists, then setup_for_episode). "
+            "Round 7: NO method of FileSystem / Folder / File is tied by text any more. Translated statement by statement from the source "
+            "and proved equal to the model's functions (Props/C15Create.lean): FileSystem.__init__, get_file, create_folder, create_file "
+            "(calling the translated create_folder / get_file / Folder.add_file; under Inv: C15_gen_create_file, and through the handler "
+            "C15_gen_create_file_request), pre_timestep, setup_for_episode (C15_gen_counter_resets), access_file, the uuid-keyed API "
+            "(get_folder_by_id, delete_file_by_id, delete_folder_by_id, Folder.get_file_by_id, remove_file_by_id), "
+            "Folder.remove_all_files, copy_file, move_file (under Inv and one-folder-per-file; folder variables are re-read from the "
+            "state after an in-place mutation), apply_timestep of FileSystem and Folder (only LIVE folders tick), describe_state of both "
+            "(C15_gen_describe_state = the model's describe, which C15_describe_exact is about), the three handler closures of "
+            "_init_request_manager and the five validators (C15_gen_handlers, C15_gen_validators = the model's guards). Methods with "
+            "no structural effect (Folder.scan / repair / corrupt / reveal_to_red, _scan_timestep, _reveal_to_red_timestep, "
+            "pre_timestep of Folder and File, File.apply_timestep / reveal_to_red, FileSystem.scan / reveal_to_red) are CHECKED to be "
+            "structurally inert by the extractor (only whitelisted non-structural attributes written, only whitelisted callees). "
+            "Still textual: the `_file_action` closure (dispatch into a file's own request manager) and the request trees.",
     "note": "C15-specific: health status, red-scan timers, sizes and file types are not modelled (no influence on structure "
             "or response status); no request "
             "path raises (after repair F-C05-2 a handler that lacks an option is answered `failure`: C15_no_request_raises, "
